@@ -8,7 +8,7 @@ import vlib
 
 PID = "C04"
 LIMIT = 655360            # llrp.MaxBufferedPayloadSz; the harness reports it too (see limit probe)
-T_H = 61                  # a type that gets a MessageHandler in the scenarios (ROAccessReport)
+T_H = 12                  # a type that gets a MessageHandler in the scenarios (GetReaderConfigResponse)
 T_H2 = 63                 # another one (ReaderEventNotification)
 T_U = 30                  # a type that never has a type handler
 REQ_T = 2                 # requests are GetReaderConfig
@@ -217,14 +217,18 @@ def flatten(sc):
     return frames, tail, stream, req_id, reg
 
 
+NEVER_REPLY = []          # types the code never treats as replies; probed in run()
+READER_INITIATED = (61, 62, 63)
+
+
 def oracle_request(sc):
     frames, tail, stream, _, lastreg = flatten(sc)
     hs = sorted(set(sc["handlers"] + ([62] if sc["keep_ack"] else [])))
     env = ["%s/%s/%d" % (",".join(map(str, f["register"])) or "-", "p" if f["panic"] else "r", f["k"]) for f in frames]
     # a header inside the tail is looked up after the sends that followed the last chunk
     env.append("%s/r/0" % (",".join(map(str, lastreg)) or "-"))
-    return "run %d %s %d - %s %s" % (LIMIT, ",".join(map(str, hs)) or "-", 1 if sc["default"] else 0,
-                                     ";".join(env), stream.hex() or "-")
+    return "run %d %s %d %s - %s %s" % (LIMIT, ",".join(map(str, hs)) or "-", 1 if sc["default"] else 0,
+                                        ",".join(map(str, NEVER_REPLY)) or "-", ";".join(env), stream.hex() or "-")
 
 
 def parse_oracle(line):
@@ -348,12 +352,25 @@ def property_check(sc, go):
     fails = []
     recs = go["records"][1:]
     callers = {c["req_id"]: c for c in go["callers"]}
-    aw = set()
+    aw, maybe = set(), set()
     prev_path = "start"
     for i, f in enumerate(frames):
         aw |= set(f["register"])
-        awaited = f["id"] in aw
-        aw.discard(f["id"])
+        # Is the caller awaiting this id entitled?  For the reader-initiated types (KeepAlive,
+        # ROAccessReport, ReaderEventNotification) that is C03's question (F2 and its fix), not
+        # C04's: the caller side is not judged for such a frame, nor for a later frame with the
+        # same id (the entry may or may not have been used up).
+        judged = True
+        if f["id"] in aw and f["typ"] in READER_INITIATED:
+            aw.discard(f["id"])
+            maybe.add(f["id"])
+            awaited, judged = f["typ"] not in NEVER_REPLY, False
+        elif f["id"] in maybe:
+            maybe.discard(f["id"])
+            awaited, judged = False, False
+        else:
+            awaited = f["id"] in aw
+            aw.discard(f["id"])
         path = path_of(sc, f, awaited)
         want = [f["ver"], f["typ"], f["plen"], f["id"]]
         if i >= len(recs) or recs[i]["hdr"] != want:
@@ -390,7 +407,7 @@ def property_check(sc, go):
                                   "frame %d: handler asked for %d of %d payload bytes and must see the first %d bytes the peer "
                                   "sent (md5 %s); it read %d bytes, md5 %s" % (i, f["k"], f["plen"], k, md5(pl[:k]), c["nread"], c["md5"])))
         # awaiting caller
-        if awaited:
+        if awaited and judged:
             c = callers.get(f["id"])
             if c is None or not c["returned"]:
                 fails.append(("caller-not-answered:" + path, "frame %d: the caller awaiting id %d was not released: %s" % (i, f["id"], c)))
@@ -490,6 +507,24 @@ def run(tier, seed, replay=None):
         if thorough:
             scs += closeresp_scenarios()
 
+    # which types does the code exempt from the awaiting lookup?  (none before the C03/F2 fix)
+    def probe(typ):
+        return dict(name="probe/%d" % typ, handlers=[], default=True, keep_ack=False, step_ms=2000, steps=[
+            dict(op="send", caller=0, typ=REQ_T),
+            dict(op="chunk", seg="whole", frames=[frame(typ, 3, 0, reply_to=0, pseed=1), frame(T_U, 0, 0, mid=99)])])
+    pa, _, _ = run_go(exe, [probe(t) for t in READER_INITIATED + (T_U,)], 120)
+    del NEVER_REPLY[:]
+    for k, t in enumerate(READER_INITIATED + (T_U,)):
+        a = pa.get(k) or {}
+        cs = a.get("callers") or [{}]
+        if cs[0].get("err") != "nil":
+            NEVER_REPLY.append(t)
+    res.notes.append("types never treated as replies by this tree (probed): %s" % NEVER_REPLY)
+    if T_U in NEVER_REPLY:
+        res.violation("caller-not-answered:probe", "a reply of an ordinary type (%d) with the id of an outstanding request was not "
+                      "delivered to the caller" % T_U, dict(kind="scenario", scenarios=[probe(T_U)]))
+        return res.finish()
+
     answers, crashed, unrun = run_go(exe, scs, 2400 if thorough else 600)
     orc, olines = run_oracle([oracle_request(sc) for sc in scs])
     if orc != 0 or len(olines) != len(scs):
@@ -506,6 +541,7 @@ def run(tier, seed, replay=None):
 
     evals, nontriv, dist, samples, frames_total = 0, set(), {}, [], 0
     disagreements = skipped = 0
+    slow = []
     by_sig = {}
     for i, sc in enumerate(scs):
         if i not in answers:
@@ -530,13 +566,15 @@ def run(tier, seed, replay=None):
         aw = set()
         for f in frames:
             aw |= set(f["register"])
-            a = f["id"] in aw
-            aw.discard(f["id"])
+            a = f["id"] in aw and f["typ"] not in NEVER_REPLY
+            if a:
+                aw.discard(f["id"])
             nontriv.add((path_of(sc, f, a), min(f["plen"], 70) if f["plen"] < LIMIT - 1 else f["plen"],
                          "all" if f["k"] >= f["plen"] else ("none" if f["k"] == 0 else "part"), f["panic"],
                          next(st["seg"] for st in sc["steps"] if st["op"] == "chunk")))
         fails = property_check(sc, go)
         diffs = compare(sc, go, model)
+        slow.append((go.get("ms", 0), sc["name"]))
         if len(samples) < 4 and fam in ("tail", "random") and len(frames) <= 4:
             samples.append(dict(scenario=sc, go=go, model=olines[i][:600]))
         for sig, text in fails:
@@ -551,6 +589,7 @@ def run(tier, seed, replay=None):
         rp = dict(kind="scenario", correspondence="C04/read-loop-vs-serve", scenarios=[sc], observed=go, expected=ol[:4000])
         res.violation(sig, "scenario %s: %s" % (sc["name"], text), rp, found_input=(sig != "model-differs"))
 
+    res.notes.append("slowest scenarios (ms): %s" % sorted(slow, reverse=True)[:5])
     res.coverage.update(
         evaluations=evals, frames_dispatched=frames_total, distinct_nontrivial=len(nontriv),
         rule="one evaluation = one scripted connection (sends, chunks of frames in a segmentation mode, optional truncated/garbled tail) "
